@@ -1009,16 +1009,9 @@ impl MdkSqliteStorage {
             )
             .map_err(|e| Error::Database(e.to_string()))?;
 
-            #[cfg(feature = "verif-hooks")]
-            crate::verif_hooks::tick("restore");
-            conn.execute(
-                "DELETE FROM groups WHERE mls_group_id = ?",
-                [group_id_bytes],
-            )
-            .map_err(|e| Error::Database(e.to_string()))?;
-
-            // Note: The CASCADE will have deleted the snapshot rows, but we already
-            // have the data in memory (snapshot_rows).
+            // Note: the `groups` row itself is NOT deleted: `messages` (and the snapshot
+            // table) reference it with ON DELETE CASCADE, so deleting it would destroy
+            // the group's stored messages. It is overwritten in place below.
 
             // 3. Restore from in-memory snapshot data
             // IMPORTANT: We must restore "groups" first because group_relays and
@@ -1066,7 +1059,21 @@ impl MdkSqliteStorage {
                     "INSERT INTO groups (mls_group_id, nostr_group_id, name, description, admin_pubkeys,
                                         last_message_id, last_message_at, last_message_processed_at, epoch, state,
                                         image_hash, image_key, image_nonce, last_self_update_at)
-                     VALUES (?, ?, ?, ?, ?, ?, ?, ?, ?, ?, ?, ?, ?, ?)",
+                     VALUES (?, ?, ?, ?, ?, ?, ?, ?, ?, ?, ?, ?, ?, ?)
+                     ON CONFLICT(mls_group_id) DO UPDATE SET
+                        nostr_group_id = excluded.nostr_group_id,
+                        name = excluded.name,
+                        description = excluded.description,
+                        admin_pubkeys = excluded.admin_pubkeys,
+                        last_message_id = excluded.last_message_id,
+                        last_message_at = excluded.last_message_at,
+                        last_message_processed_at = excluded.last_message_processed_at,
+                        epoch = excluded.epoch,
+                        state = excluded.state,
+                        image_hash = excluded.image_hash,
+                        image_key = excluded.image_key,
+                        image_nonce = excluded.image_nonce,
+                        last_self_update_at = excluded.last_self_update_at",
                     rusqlite::params![
                         mls_group_id,
                         nostr_group_id,
@@ -1188,7 +1195,7 @@ impl MdkSqliteStorage {
                 #[cfg(feature = "verif-hooks")]
                 crate::verif_hooks::tick("restore");
                 conn.execute(
-                    "INSERT INTO group_state_snapshots (snapshot_name, group_id, table_name, row_key, row_data, created_at)
+                    "INSERT OR IGNORE INTO group_state_snapshots (snapshot_name, group_id, table_name, row_key, row_data, created_at)
                      VALUES (?, ?, ?, ?, ?, ?)",
                     rusqlite::params![snap_name, group_id_bytes, table_name, row_key, row_data, created_at],
                 )
